@@ -10,7 +10,8 @@ RULE = ("directed deck with one scripted micro-history per (operation x argument
         "3-letter alphabet; after every operation the whole-universe tree invariants are evaluated and the "
         "path/document/traversal queries are driven under a logical step budget; non-trivial = history with "
         "more than 2 operations; distinct = hash of the op list")
-ASSUMPTIONS = ["operations are issued through the public API only; private fields are only read",
+ASSUMPTIONS = ["the repository's own test-suite runs once more under the tree predicates (evaluated on everything a test created, after each test)",
+               "operations are issued through the public API only; private fields are only read",
                "a history is abandoned at its first violation of C03-C06 (later states are unreachable for a "
                "correct implementation); cells with an open known finding are skipped in the random phase and "
                "re-confirmed by the directed deck in the same run"]
